@@ -3,7 +3,7 @@
    All statements quantify over EVERY reachable state of the life-cycle LTS Srv/Conc.v: any number of requests,
    any interleaving of the receive, worker, responder and send steps, any behaviour of the implementation. *)
 From Coq Require Import NArith List Bool PeanoNat.
-From V9 Require Shape.ShapeLib Shape.Params.
+From V9 Require Shape.ShapeLib Shape.PBuf Shape.POrder.
 From V9 Require Srv.Buf Srv.BufProofs.
 From V9 Require Import Lib.GoSem Gen.Consts Srv.Conc Srv.ConcProofs.
 Import ListNotations.
@@ -86,17 +86,17 @@ Print Assumptions C03_early_recycle_refuted.
 
 (* in the source as it is now: RespondR* test-and-pack inside packReply's critical section, send recycles the
    buffer after the Write: the buffer theorem holds for the configuration the source has *)
-Theorem C03_source_is_the_fixed_configuration : Params.buf_cfg_of_source = Buf.fixed_cfg.
-Proof. exact Params.buf_cfg_is_fixed. Qed.
+Theorem C03_source_is_the_fixed_configuration : PBuf.buf_cfg_of_source = Buf.fixed_cfg.
+Proof. exact PBuf.buf_cfg_is_fixed. Qed.
 Print Assumptions C03_source_is_the_fixed_configuration.
 
 Theorem C03_wire_bytes_belong_to_request_in_source : forall s r c,
-  Buf.reach Params.buf_cfg_of_source s -> In (r, c) (Buf.wire s) -> exists v, c = Some (r, v).
-Proof. exact Params.wire_bytes_belong_to_request_src. Qed.
+  Buf.reach PBuf.buf_cfg_of_source s -> In (r, c) (Buf.wire s) -> exists v, c = Some (r, v).
+Proof. exact PBuf.wire_bytes_belong_to_request_src. Qed.
 Print Assumptions C03_wire_bytes_belong_to_request_in_source.
 
 (* Respond marks, post-processes, queues the reply, and only then unlinks the request and starts the next of
    its tag group: the order of the frame's program counters in Srv/Conc.v (R1, R3, R4, R2, R5) *)
 Theorem C03_source_respond_order : ShapeLib.respond_order = true.
-Proof. exact Params.respond_order_ok. Qed.
+Proof. exact POrder.respond_order_ok. Qed.
 Print Assumptions C03_source_respond_order.
